@@ -125,7 +125,11 @@ AGet(H, o, p) == LET r == GetProp(H, o, p) IN IF r.has THEN r.d.v ELSE Undef
 (* 8.12.5 [[Put]] (data properties only): [H, ok, thr] *)
 APut(H, o, p, v) ==
     IF ~CanPut(H, o, p) THEN [H |-> H, ok |-> FALSE, thr |-> ""]                       \* step 1
-    ELSE IF HasOwn(H, o, p) THEN ADefOwn(H, o, p, ValueDesc(v))                         \* step 3
+    ELSE IF HasOwn(H, o, p) THEN                                                        \* step 3: {[[Value]]: V}
+        \* (objectPut passes the whole current property with the new value; for the property itself that
+        \* is the same change, but the index deviation applies the descriptor to the canonical name too)
+        (LET cur == OwnProp(H, o, p)
+         IN  ADefOwn(H, o, p, IF D("D08_index_parseint") THEN FullDataDesc(v, cur.w, cur.e, cur.c) ELSE ValueDesc(v)))
     ELSE ADefOwn(H, o, p, FullDataDesc(v, TRUE, TRUE, TRUE))                            \* step 6
 
 (* the internal methods on evaluation states, Throw = true *)
